@@ -13,6 +13,7 @@ def run(ck):
     loaders.run_all(ck)
     loaders.spec_configured_address(ck)
     loaders.spec_metrics_config(ck)
+    loaders.spec_io_params(ck)
     loadbalance.spec_lb_verify(ck)
     loadbalance.spec_lb_init(ck)
     loadbalance.spec_lb_member_graph(ck)
